@@ -127,18 +127,28 @@ static mjModel* load_exact(const std::vector<char>& bytes, bool* raised) {
   mjModel* m = nullptr;
   *raised = ND_GUARD({ m = mj_loadModelBuffer(buf, (int)bytes.size()); });
   free(buf);
+  // the statement allows exactly two outcomes for a damaged file: "rejected with a warning and a NULL result" or an in-bounds
+  // model.  mju_error terminates the process by default, so an error is accepted only when it is the harness's own injected
+  // fault (the allocation cap refusing a corrupted size); any other error raised by the loader is reported.
+  if (*raised && !strstr(g_lasterr, "allocate")) {
+    count("load_raised_non_allocation_error");
+    violation_or_continue("load-raised-error", "mj_loadModelBuffer raised mju_error instead of rejecting the file with a warning: %s", g_lasterr);
+  }
   return m;
 }
 
 // blocks left behind by a rejected load.  When the rejection is the allocator refusing a (corrupted, huge) size, the
 // struct allocated just before is the leak already recorded under C21 (mju_malloc raises inside itself): not re-reported here.
 static long g_capped_seen = 0;
+static std::string g_leakdesc;
 static std::set<void*> g_base;   // blocks that belong to the case's own model
 static bool leaked_after_rejection(size_t* live0) {
   if (g_live.size() == *live0) return false;
   bool refused = g_capped != g_capped_seen;
   g_capped_seen = g_capped;
-  for (auto it = g_live.begin(); it != g_live.end();) { if (!g_base.count(it->first)) { free(it->first); it = g_live.erase(it); } else ++it; }
+  g_leakdesc.clear();
+  for (auto it = g_live.begin(); it != g_live.end();) { if (!g_base.count(it->first)) { g_leakdesc += " " + std::to_string(it->second); free(it->first); it = g_live.erase(it); } else ++it; }
+  g_leakdesc = "leaked block sizes:" + g_leakdesc + "; last warning: " + g_lastwarn + "; last error: " + g_lasterr;
   *live0 = g_live.size();
   if (refused) { count("leaks_after_refused_allocation_(C21_finding)"); return false; }
   return true;
@@ -161,6 +171,8 @@ int main(int argc, char** argv) {
     mjModel* m = sup.get(r, go, &mdesc, nullptr, 150);
     if (!m) { end_case(); continue; }
     g_scenario = mdesc;
+    // cap per case: no legitimate (re)load of this model needs more than a small multiple of its own size
+    g_cap = std::max<size_t>((size_t)4 << 20, 16 * (size_t)mj_sizeModel(m));
     size_t live0 = g_live.size();
     g_base.clear();
     for (auto& [p, n] : g_live) g_base.insert(p);
@@ -268,7 +280,7 @@ int main(int argc, char** argv) {
         count("faulted_executions"); count("byte_corruptions");
         if (mc) { check_bounds(mc, g_scenario.c_str()); mj_deleteModel(mc); count("corruptions_accepted_in_bounds"); }
         else { count(raised ? "corruptions_rejected_by_error" : "corruptions_rejected_by_warning"); if (!raised && g_nwarn == w0) violation("silent-rejection", "corrupted header/size byte %zu rejected without a warning", pos); }
-        if (leaked_after_rejection(&live0)) violation_or_continue("leak-on-rejection:corrupt-size", "rejecting a file with byte %zu corrupted left blocks allocated", pos);
+        if (leaked_after_rejection(&live0)) violation_or_continue("leak-on-rejection:corrupt-size", "rejecting a file with byte %zu corrupted left blocks allocated (%s)", pos, g_leakdesc.c_str());
       }
       // (2) every cross-reference field: illegal and boundary values
       for (auto& b : kBounds) {
@@ -300,7 +312,7 @@ int main(int argc, char** argv) {
           }
           else if (!raised && g_nwarn == w0) violation("silent-rejection", "corrupted %s rejected without a warning", b.field);
           else if (illegal) count("illegal_references_rejected");
-          if (leaked_after_rejection(&live0)) violation_or_continue("leak-on-rejection:corrupt-field", "rejecting a file with %s corrupted left blocks allocated", b.field);
+          if (leaked_after_rejection(&live0)) violation_or_continue("leak-on-rejection:corrupt-field", "rejecting a file with %s corrupted left blocks allocated (%s)", b.field, g_leakdesc.c_str());
         }
       }
       // (3) seeded multi-byte bursts anywhere
@@ -312,7 +324,7 @@ int main(int argc, char** argv) {
         mjModel* mc = load_exact(c, &raised);
         count("faulted_executions"); count("burst_corruptions");
         if (mc) { check_bounds(mc, g_scenario.c_str()); mj_deleteModel(mc); }
-        if (leaked_after_rejection(&live0)) violation_or_continue("leak-on-rejection:burst", "rejecting a burst-corrupted file left blocks allocated");
+        if (leaked_after_rejection(&live0)) violation_or_continue("leak-on-rejection:burst", "rejecting a burst-corrupted file left blocks allocated (%s)", g_leakdesc.c_str());
       }
     }
     g_scenario = mdesc;
